@@ -64,7 +64,7 @@ BigMinBinOK == \A u \in BigGolombBs : \A E \in Es : \A n \in BigGrid :
               Lt(n, u) => Check(CMinBin(u), E, n)
 
 \* prefix-freeness on the dense range
-PrefixFree == \A c \in SmallCodes : \A E \in Es : \A i, j \in 0..Min(MaxSmall, 150) :
+PrefixFree == \A c \in SmallCodes : \A E \in Es : \A i, j \in 0..Min2(MaxSmall, 150) :
      (i # j /\ InDomain(c, FromInt(i)) /\ InDomain(c, FromInt(j))) =>
         ~IsPrefixOf(Enc(c, E, FromInt(i)), Enc(c, E, FromInt(j)))
 
